@@ -141,7 +141,12 @@ def run_history(cluster, rng, n_ops, natoms, D, full_radii, thr, prefix_lists):
                 cluster.indices = [int(i) for i in new]
             else:
                 ops.append({"op": "GetDim"})
-                val = cluster.get_dimensionality()
+                try:
+                    val = cluster.get_dimensionality()
+                except CaseTimeout:
+                    raise
+                except Exception as e:  # the shortcut raising is an answer that differs from the direct evaluation
+                    val = "raised " + type(e).__name__
                 if spy.calls:
                     made = describe_call(spy.calls[0], system, D, full_radii, thr, lists)
                     made["n_calls"] = len(spy.calls)
@@ -149,7 +154,7 @@ def run_history(cluster, rng, n_ops, natoms, D, full_radii, thr, prefix_lists):
                 idx = list(cluster.indices)
                 dkw = {} if full_radii is None else {"radii": np.asarray(full_radii, dtype=float)[idx]}
                 direct = dimval(spy.orig(system[idx], thr, **dkw))
-                ops[-1]["shortcut"] = dimval(val)
+                ops[-1]["shortcut"] = val if isinstance(val, str) else dimval(val)
                 ops[-1]["direct"] = direct
         seen.append({"cache": cluster._distance_matrix_radii_mic is not None,
                      "dim": cluster._dimensionality is not None, "call": made})
